@@ -1154,16 +1154,27 @@ def sk_flag_fresh(run, R="SK"):
     if f is None:
         return
     n, bad = 0, []
-    for bi, si, st in f.stmts():
-        if st["k"] == "assign" and st["place"]["p"] and isinstance(st["place"]["p"][-1], dict) and st["place"]["p"][-1].get("name") in ("encoding_statically_known", "encoding_size") \
-                and f.local_name(st["place"]["l"]) != "instr" and "instructions" not in deep(f, {"copy": {"l": st["place"]["l"], "p": []}}, 6):
-            n += 1
-            d = deep(f, st["rv"].get("op") or st["rv"], 10)
-            fresh = bool(re.match(r"^(Option::unwrap_or\()?matcher::get_match_(statically_known|static_size)\(", d)) and "HashMap" not in d and "BTreeMap" not in d
-            if st["place"]["p"][-1]["name"] == "encoding_statically_known":
-                fresh = fresh and "symbol_ctx" in d
-            if not fresh:
-                bad.append("%s = %s" % (st["place"]["p"][-1]["name"], d[:70]))
+    # match_all itself, or a private helper of the matcher that it hands the matches and the symbol context to
+    cands = [(f, None)]
+    for cb, h in private_helpers(f):
+        for b2, t2 in f.calls():
+            if (t2.get("resolved") or "") == h.id:
+                cands.append((h, t2))
+    for g, site in cands:
+        for bi, si, st in g.stmts():
+            if st["k"] == "assign" and st["place"]["p"] and isinstance(st["place"]["p"][-1], dict) and st["place"]["p"][-1].get("name") in ("encoding_statically_known", "encoding_size") \
+                    and g.local_name(st["place"]["l"]) != "instr" and "instructions" not in deep(g, {"copy": {"l": st["place"]["l"], "p": []}}, 6):
+                n += 1
+                d = deep(g, st["rv"].get("op") or st["rv"], 10)
+                fresh = bool(re.match(r"^(Option::unwrap_or\()?matcher::get_match_(statically_known|static_size)\(", d)) and "HashMap" not in d and "BTreeMap" not in d
+                if st["place"]["p"][-1]["name"] == "encoding_statically_known":
+                    ctx_ok = "symbol_ctx" in d
+                    m_ = re.match(r"^matcher::get_match_statically_known\(P\d+, P\d+, P(\d+)[,)]", d)
+                    if not ctx_ok and site is not None and m_ and int(m_.group(1)) - 1 < len(site["args"]):
+                        ctx_ok = "symbol_ctx" in deep(f, site["args"][int(m_.group(1)) - 1], 6)
+                    fresh = fresh and ctx_ok
+                if not fresh:
+                    bad.append("%s = %s" % (st["place"]["p"][-1]["name"], d[:70]))
     run.check(n >= 2 and not bad, R, R + "|match-all|flags-fresh", f.loc(), "every match gets the static analysis' own answer for itself under the current symbol context (%d store(s))" % n,
               "match_all stores static information that is not the analysis' answer for this match at this place (%s): an instruction whose text was seen before inherits the flags computed under another label, where the same local name is another symbol" % ("; ".join(bad) or "stores not found"))
 
